@@ -313,10 +313,11 @@ Section History.
   Definition merged (observer : string) (n : net) : option idata :=
     fold_left (merge_at observer) (map ho_prev (n_hosts n)) (Some empty_data).
 
-  (* states marked as sent by a peer other than q *)
-  Definition marks_of_others (q : string) (t : list (state cid)) : nat :=
+  (* states marked as sent by a peer of the network other than q (the observer's own marks are not the history's) *)
+  Definition marks_of_others (q observer : string) (t : list (state cid)) : nat :=
     length (filter (fun s => match s with
-                             | SCall (RequestSentBy (SPeer p)) | SCanon (CanonRequestSentBy p) => negb (String.eqb p q)
+                             | SCall (RequestSentBy (SPeer p)) | SCanon (CanonRequestSentBy p) =>
+                                 negb (String.eqb p q) && negb (String.eqb p observer)
                              | _ => false end) t).
 
   (* once every particle and call result has been delivered, no call or canon that some peer of the
@@ -328,7 +329,25 @@ Section History.
       forall m, merged observer n = Some m ->
       forall h, In h (n_hosts n) ->
       forall code d next reqs signed, run_at h m [] = OutNewData code d next reqs signed ->
-        marks_of_others (ho_peer h) (d_trace d) = marks_of_others (ho_peer h) (d_trace m).
+        marks_of_others (ho_peer h) observer (d_trace d) = marks_of_others (ho_peer h) observer (d_trace m).
+
+  (* the same as a function: None when the history is not quiescent / cannot be merged *)
+  Definition quiescent_b (n : net) : bool :=
+    n_clean n && match n_inflight n with [] => true | _ => false end &&
+    forallb (fun h => match ho_pending h with [] => true | _ => false end) (n_hosts n).
+  Definition C19_quiescent_check (peers : list string) (observer : string) (ops : list hop) : option bool :=
+    let n := fold_left step ops (start_net peers) in
+    if negb (quiescent_b n) then None else
+    match merged observer n with
+    | None => None
+    | Some m =>
+        Some (forallb (fun h => match run_at h m [] with
+                                | OutNewData _ d _ _ _ =>
+                                    Nat.eqb (marks_of_others (ho_peer h) observer (d_trace d))
+                                            (marks_of_others (ho_peer h) observer (d_trace m))
+                                | _ => true
+                                end) (n_hosts n))
+    end.
 End History.
 
 Definition C19_full (hook : stream_hook) (finish : ctx -> ctx + uncatchable) : Prop :=
